@@ -353,6 +353,7 @@ static void execOp(const Group& T, const Op& o) {
             g_failNextRealloc = true;
             void* q = cpputest_realloc_location(s.p, (size_t)o.c, file, line);
             if (g_failNextRealloc && RS.o) { RS.o->reallocFaultUnused.push_back(o.d); fired("realloc_fault_never_asked_for"); }      // no platform realloc was called: nothing failed, an ordinary reallocation
+            else if (q && RS.o) { RS.o->reallocFaultUnused.push_back(o.d); fired("realloc_served_after_a_platform_failure"); }      // the detector asked the platform again and was served: an ordinary reallocation as well
             g_failNextRealloc = false;
             if (q) { s.p = q; s.size = (size_t)o.c; fillPattern(q, s.size, (int)(o.a % N_SLOTS)); }
             break;
